@@ -163,6 +163,11 @@ func C14(sp *spec.Spec, ex *rt.Exchange) *Verdict {
 		v.Inconclusive = "unknown method"
 		return v
 	}
+	if isMultipart(m) {
+		// the evaluator reads JSON bodies only (stated in C14's assumptions): a multipart exchange is not decided here
+		v.Inconclusive = "multipart request body (outside the JSON schema evaluator)"
+		return v
+	}
 	c := ex.Case
 	if m.HTTP != nil && sv != nil {
 		// goa accepts designs in which two methods declare the same verb and path; the document then holds one
